@@ -8,8 +8,17 @@ from spellings import OPAQUE_KINDS, spell
 MATCHERS = {}
 
 
+def regen_optimiser():
+    """CmGen/Optimiser.lean: the control logic of optimisation.py as it reads now (the `source_*` theorems of
+    CmProps/C16opt.lean identify it with the model)"""
+    from translate import optimiser
+    optimiser.generate()
+
+
 def check(run):
-    run.proof = proof_status("C16")
+    run.proof = proof_status("C16", regenerate=regen_optimiser)
+    from translate import optimiser as _opt
+    run.extra["source_translation_optimiser"] = _opt.summary()
     q = run.quick()
     n = 600 if q else 9000
     run.rule = ("pair mix as C01, weighted to pairs below a threshold; each pair is run through the API in modes 1 and 2 "
